@@ -429,6 +429,8 @@ func (r *Resolver) fileDescriptors(f func() ([][]byte, error)) (*descriptorpb.Fi
 			continue
 		}
 
+		processed[fd.GetName()] = struct{}{}
+
 		set.File = append(set.File, fd)
 		bundle = append(bundle, namedProtoBundle{name: fd.GetName(), proto: bytes})
 	}
